@@ -72,8 +72,13 @@ ChunkVerdict ==
              ELSE "price-inside-the-minute:"
                   \o (IF \E x \in DOMAIN D : x # o /\ D[x].st = "E" /\ D[x].at <= m THEN "after-another-fill" ELSE "no-earlier-fill")
                   \o ":" \o (IF n >= 3 THEN "n>=3" ELSE IF n = 2 THEN "n=2" ELSE "n<=1"))
-StepVerdict == IF MissedStep = {} \/ ~On("fill") THEN "ok"
-               ELSE "fill:" \o H.mode \o ":order-left-active-although-the-path-ahead-reaches-its-price"
+\* C02: nothing the path ahead still reaches may be left active; C08 states the same for orders created in reaction
+\* to a fill of this minute (born > 0): they fill on the part of the path after that fill
+StepVerdict == IF MissedStep # {} /\ On("fill")
+               THEN "fill:" \o H.mode \o ":order-left-active-although-the-path-ahead-reaches-its-price"
+               ELSE IF On("path") /\ \E o \in MissedStep : A[o].born > 0
+               THEN "path:" \o H.mode \o ":order-created-in-reaction-to-a-fill-not-filled-although-the-rest-of-the-path-reaches-its-price"
+               ELSE "ok"
 
 \* ---------------- liquidation arithmetic (hdr.unit-rounded amounts; q8 = 8 * qty) ----------------
 Lev == H.lev
